@@ -88,7 +88,7 @@ func genArgs(g *G) (text string, class string, tag string, ok bool) {
 	}
 	k := g.intn(100)
 	switch {
-	case g.rare(10, 0.004):
+	case g.rare(8, 0.004):
 		// the extreme value the property names: a requested range whose last address is 255.255.255.255
 		r := g.endMaxRange()
 		if g.chance(0.5) {
@@ -279,6 +279,7 @@ func (s *surf1) gen(idx int) *Input {
 		pod.Spec = eniPodSpec(true)
 		pod.OwnerReferences = []metav1.OwnerReference{{Kind: "StatefulSet", Name: "sts-xxx"}}
 		pod.Name, pod.Namespace = "sts-xxx-0", "ns1"
+		pod.Annotations = map[string]string{constant.ExtendedCNIArgsAnnotation: pod.Annotations[constant.ExtendedCNIArgsAnnotation]}
 		d.nodes = s.e.nodes[:3]
 	}
 	d.node = g.pick("n-27", "n-173", "n-01", "n-top", "n-bot")
